@@ -203,6 +203,14 @@ func genOutCase(t *rapid.T, forceSigned bool) OutCase {
 		}
 	}
 	c.SP.LateSignOptions = rapid.IntRange(0, 2).Draw(t, "lateSignOptions") == 0
+	if (c.SP.Enc.Mode == "custom" || c.SP.Enc.Mode == "both") && rapid.IntRange(0, 3).Draw(t, "shareFieldStore") == 0 {
+		// one store object in both deprecated fields (optionally with an encryption-key setter on top): the signing
+		// key is the FIELD store's key, whatever SetSPKeyStore says about decryption
+		c.SP.Enc.FieldPtr, c.SP.Enc.Chain = true, false
+		c.SP.Sig = h.KeyCfg{Mode: "custom", Field: c.SP.Enc.Field}
+		c.SP.ShareFieldStore = true
+		hasKey = true
+	}
 	c.Signed = hasKey && (forceSigned || rapid.Bool().Draw(t, "signed"))
 	c.Direct = c.Signed && c.Kind != "authn-str" && rapid.IntRange(0, 3).Draw(t, "directSign") == 0
 	c.Resign = c.Direct && rapid.IntRange(0, 2).Draw(t, "resign") == 0
